@@ -13,6 +13,7 @@ import (
 	"strings"
 
 	"golang.org/x/tools/go/ssa"
+	"golang.org/x/tools/go/ssa/ssautil"
 )
 
 // ---------------------------------------------------------------------------------------------
@@ -1128,13 +1129,14 @@ func calleeMayStoreField(g *ssa.Function, pkg, typ, field string, depth int, see
 // row. ok=false when v is not of that shape or a row does not set the field.
 func rowAlternatives(v ssa.Value) ([]ssa.Value, bool) {
 	ps := pathsOf(stripConv(v))
-	if len(ps) != 1 || len(ps[0].fields) != 1 {
+	if len(ps) != 1 || len(ps[0].fields) > 1 {
 		return nil, false
 	}
 	ia, ok := ps[0].root.(*ssa.IndexAddr)
 	if !ok {
 		return nil, false
 	}
+	whole := len(ps[0].fields) == 0 // a table of plain values: the element itself
 	var arr *ssa.Alloc
 	switch x := ia.X.(type) {
 	case *ssa.Slice:
@@ -1166,6 +1168,14 @@ func rowAlternatives(v ssa.Value) ([]ssa.Value, bool) {
 			return nil, false
 		}
 		for _, r2 := range refs(ria) {
+			if whole {
+				st, isSt := r2.(*ssa.Store)
+				if !isSt || st.Addr != ssa.Value(ria) {
+					return nil, false
+				}
+				rows[k] = st.Val
+				continue
+			}
 			fa, isFA := r2.(*ssa.FieldAddr)
 			if !isFA {
 				return nil, false
@@ -1496,4 +1506,488 @@ func classifyDecisionA(prog *Prog, s *decisionSite, alt []xfact, notes *[]string
 // decision (exported predicates are the atoms of the rule).
 func decisionAlternatives(prog *Prog, p *Path) [][]xfact {
 	return expandAlternatives(prog, factList(p.Facts), nil, 0, func(g *ssa.Function) bool { return token.IsExported(g.Name()) })
+}
+
+// ---------------------------------------------------------------------------------------------
+// facts that hold inside a function because of how it is dispatched
+
+// funcUses indexes, for every function value of the program's repository packages (synthetic
+// wrappers included), the instructions that mention it as an operand.
+func funcUses(prog *Prog) map[*ssa.Function][]ssa.Instruction {
+	if u, ok := funcUsesCache[prog]; ok {
+		return u
+	}
+	uses := map[*ssa.Function][]ssa.Instruction{}
+	for fn := range ssautil.AllFunctions(prog.SSA) {
+		if len(fn.Blocks) == 0 {
+			continue
+		}
+		root := fn
+		for root.Parent() != nil {
+			root = root.Parent()
+		}
+		pkg := root.Pkg
+		if pkg == nil {
+			if o := root.Object(); o != nil && o.Pkg() != nil && prog.IsRepoPkg(o.Pkg().Path()) {
+				// synthetic wrapper of a repository method
+			} else {
+				continue
+			}
+		} else if !prog.IsRepoPkg(pkg.Pkg.Path()) {
+			continue
+		}
+		for _, b := range fn.Blocks {
+			for _, in := range b.Instrs {
+				for _, op := range in.Operands(nil) {
+					if g, ok := (*op).(*ssa.Function); ok {
+						uses[g] = append(uses[g], in)
+					}
+				}
+			}
+		}
+	}
+	funcUsesCache[prog] = uses
+	return uses
+}
+
+var funcUsesCache = map[*Prog]map[*ssa.Function][]ssa.Instruction{}
+
+// dispatchKeys: when fn is only ever reached through a package-level constant table
+// `map[K]func…{k1: fn, …}` (directly, as a method expression or through a wrapper) whose every
+// use is a lookup `table[idx]` with idx accepted by isIdx and the result called, it returns the
+// keys under which fn is stored: inside fn, idx equals one of them. ok=false otherwise.
+func dispatchKeys(prog *Prog, fn *ssa.Function, isIdx func(ssa.Value) bool, depth int) (keys []string, ok bool) {
+	uses := funcUses(prog)[fn]
+	if len(uses) == 0 || depth > 3 {
+		return nil, false
+	}
+	set := map[string]bool{}
+	for _, in := range uses {
+		switch x := in.(type) {
+		case ssa.CallInstruction:
+			// a static call from a synthetic wrapper (method expression thunk, bound method)
+			if staticCallee(x.Common()) == fn && x.Parent().Synthetic != "" {
+				ks, okW := dispatchKeys(prog, x.Parent(), isIdx, depth+1)
+				if !okW {
+					return nil, false
+				}
+				for _, k := range ks {
+					set[k] = true
+				}
+				continue
+			}
+			return nil, false
+		case *ssa.MapUpdate, *ssa.ChangeType, *ssa.MakeClosure, *ssa.MakeInterface:
+			ks, okM := dispatchKeysOfValueUse(prog, in, isIdx)
+			if !okM {
+				return nil, false
+			}
+			for _, k := range ks {
+				set[k] = true
+			}
+		default:
+			return nil, false
+		}
+	}
+	for k := range set {
+		keys = append(keys, k)
+	}
+	sort.Strings(keys)
+	return keys, len(keys) > 0
+}
+
+// dispatchKeysOfValueUse follows a function value through conversions into a MapUpdate of a map
+// literal that initialises a global table, and checks how the table is used.
+func dispatchKeysOfValueUse(prog *Prog, in ssa.Instruction, isIdx func(ssa.Value) bool) ([]string, bool) {
+	var keys []string
+	switch x := in.(type) {
+	case *ssa.MapUpdate:
+		k, isC := constString(x.Key)
+		if !isC {
+			return nil, false
+		}
+		mm, isMM := x.Map.(*ssa.MakeMap)
+		if !isMM {
+			return nil, false
+		}
+		// the map literal is stored into one global, whose loads are only indexed and the result called
+		var g *ssa.Global
+		for _, rf := range refs(mm) {
+			switch y := rf.(type) {
+			case *ssa.MapUpdate:
+			case *ssa.Store:
+				gg, isG := y.Addr.(*ssa.Global)
+				if !isG || y.Val != ssa.Value(mm) {
+					return nil, false
+				}
+				g = gg
+			default:
+				return nil, false
+			}
+		}
+		if g == nil {
+			return nil, false
+		}
+		for fn := range ssautil.AllFunctions(prog.SSA) {
+			if fn.Pkg != g.Pkg {
+				continue
+			}
+			for _, b := range fn.Blocks {
+				for _, ins := range b.Instrs {
+					ld, isLd := ins.(*ssa.UnOp)
+					if !isLd || ld.X != ssa.Value(g) {
+						if st, isSt := ins.(*ssa.Store); isSt && st.Addr == ssa.Value(g) && st.Val != ssa.Value(mm) {
+							return nil, false // the table is reassigned
+						}
+						continue
+					}
+					for _, rf := range refs(ld) {
+						lk, isLk := rf.(*ssa.Lookup)
+						if !isLk || lk.X != ssa.Value(ld) || !isIdx(lk.Index) {
+							return nil, false
+						}
+					}
+				}
+			}
+		}
+		keys = append(keys, k)
+		return keys, true
+	case ssa.Value:
+		// a conversion / closure of the function value: follow its uses
+		rs := refs(x)
+		if len(rs) == 0 {
+			return nil, false
+		}
+		for _, rf := range rs {
+			ks, ok := dispatchKeysOfValueUse(prog, rf, isIdx)
+			if !ok {
+				return nil, false
+			}
+			keys = append(keys, ks...)
+		}
+		return keys, true
+	}
+	return nil, false
+}
+
+// underDispatchFact reports whether block b of fn is only executed when the value accepted by
+// isIdx equals want: by a must-fact at b, because fn is dispatched from a constant table under
+// that key only, or because every static caller calls fn under that condition.
+func underDispatchFact(prog *Prog, fn *ssa.Function, b *ssa.BasicBlock, isIdx func(ssa.Value) bool, want string, depth int) bool {
+	if depth > 4 {
+		return false
+	}
+	if prog.factsOf(fn).AtExpanded(b).any(true, func(v ssa.Value, _ string) bool {
+		return isEqCompare(v, isIdx, isConstStringVal(want))
+	}) {
+		return true
+	}
+	if keys, ok := dispatchKeys(prog, fn, isIdx, 0); ok {
+		return len(keys) == 1 && keys[0] == want
+	}
+	var callers []ssa.CallInstruction
+	for _, in := range funcUses(prog)[fn] {
+		ci, isCall := in.(ssa.CallInstruction)
+		if !isCall || staticCallee(ci.Common()) != fn {
+			return false // the function escapes as a value in a way that is not a constant table
+		}
+		callers = append(callers, ci)
+	}
+	if len(callers) == 0 {
+		return false
+	}
+	for _, ci := range callers {
+		if !underDispatchFact(prog, ci.Parent(), ci.Block(), isIdx, want, depth+1) {
+			return false
+		}
+	}
+	return true
+}
+
+// ---------------------------------------------------------------------------------------------
+// decisions written as an ordered table of {predicate, value} rows scanned by a loop
+
+// arrayLiteralRows reads a composite literal of structs stored in a local array: one map
+// field -> stored value per row. ok=false when the array is used in any other way.
+func arrayLiteralRows(arr *ssa.Alloc) ([]map[string]ssa.Value, bool) {
+	at, isArr := arr.Type().Underlying().(*types.Pointer).Elem().Underlying().(*types.Array)
+	if !isArr {
+		return nil, false
+	}
+	rows := make([]map[string]ssa.Value, at.Len())
+	for i := range rows {
+		rows[i] = map[string]ssa.Value{}
+	}
+	for _, r := range refs(arr) {
+		ria, isIA := r.(*ssa.IndexAddr)
+		if !isIA {
+			if _, isSl := r.(*ssa.Slice); isSl {
+				continue
+			}
+			return nil, false
+		}
+		k, isConst := constInt(ria.Index)
+		if !isConst || k < 0 || k >= at.Len() {
+			return nil, false
+		}
+		for _, r2 := range refs(ria) {
+			fa, isFA := r2.(*ssa.FieldAddr)
+			if !isFA {
+				return nil, false
+			}
+			for _, r3 := range refs(fa) {
+				if st, isSt := r3.(*ssa.Store); isSt && st.Addr == ssa.Value(fa) {
+					rows[k][fieldName(fa)] = st.Val
+				}
+			}
+		}
+	}
+	return rows, true
+}
+
+// globalTableRows reads the rows of a package-level slice of structs that is assigned once, in
+// the package initialiser, from a composite literal.
+func globalTableRows(g *ssa.Global) ([]map[string]ssa.Value, bool) {
+	var rows []map[string]ssa.Value
+	n := 0
+	for _, mem := range g.Pkg.Members {
+		fn, isF := mem.(*ssa.Function)
+		if !isF {
+			continue
+		}
+		for _, f := range append([]*ssa.Function{fn}, fn.AnonFuncs...) {
+			for _, b := range f.Blocks {
+				for _, in := range b.Instrs {
+					st, isSt := in.(*ssa.Store)
+					if !isSt || st.Addr != ssa.Value(g) {
+						continue
+					}
+					n++
+					sl, isSl := st.Val.(*ssa.Slice)
+					if !isSl || f.Name() != "init" {
+						return nil, false
+					}
+					arr, isA := sl.X.(*ssa.Alloc)
+					if !isA {
+						return nil, false
+					}
+					var ok bool
+					if rows, ok = arrayLiteralRows(arr); !ok {
+						return nil, false
+					}
+				}
+			}
+		}
+	}
+	return rows, n == 1
+}
+
+// predFact: the boolean result of calling fn on args.
+type predFact struct {
+	fn   *ssa.Function
+	args []ssa.Value
+	pol  bool
+}
+
+// decisionOutcome: one way a decision function returns: the returned value and the predicate
+// results it implies.
+type decisionOutcome struct {
+	result ssa.Value
+	preds  []predFact
+	pos    token.Pos
+}
+
+// tableScanOutcomes recognises `for _, row := range table { if row.pred(args…) { return row.val } };
+// return dflt` over a package-level table and returns its outcomes: row k is returned when its
+// predicate holds and those of the earlier rows do not; the default when none holds.
+func tableScanOutcomes(prog *Prog, fn *ssa.Function) ([]decisionOutcome, bool) {
+	var header *ssa.BasicBlock
+	for _, b := range fn.Blocks {
+		for _, p := range b.Preds {
+			if b.Dominates(p) {
+				if header != nil && header != b {
+					return nil, false
+				}
+				header = b
+			}
+		}
+	}
+	if header == nil {
+		return nil, false
+	}
+	k := newKeyer(fn)
+	body, ok := loopBodyPaths(fn, k, header, 2000)
+	if !ok || len(body) == 0 {
+		return nil, false
+	}
+	// the scanned element: &table[i] with table loaded from a global
+	var elemKey string
+	var rows []map[string]ssa.Value
+	inLoop := map[*ssa.BasicBlock]bool{}
+	for _, p := range body {
+		for _, b := range p.Blocks {
+			inLoop[b] = true
+		}
+	}
+	for b := range inLoop {
+		for _, in := range b.Instrs {
+			ia, isIA := in.(*ssa.IndexAddr)
+			if !isIA {
+				continue
+			}
+			ld, isLd := ia.X.(*ssa.UnOp)
+			if !isLd {
+				continue
+			}
+			g, isG := ld.X.(*ssa.Global)
+			if !isG {
+				continue
+			}
+			rs, okR := globalTableRows(g)
+			if !okR {
+				return nil, false
+			}
+			if rows != nil && k.key(ia) != elemKey {
+				return nil, false
+			}
+			rows, elemKey = rs, k.key(ia)
+		}
+	}
+	if rows == nil {
+		return nil, false
+	}
+	elemField := func(v ssa.Value) (string, bool) {
+		ps := pathsOf(stripConv(v))
+		if len(ps) != 1 || len(ps[0].fields) != 1 {
+			return "", false
+		}
+		if ia, isIA := ps[0].root.(*ssa.IndexAddr); isIA && k.key(ia) == elemKey {
+			return ps[0].fields[0], true
+		}
+		return "", false
+	}
+	predField, valField := "", ""
+	var args []ssa.Value
+	for _, p := range body {
+		var rowPred *Fact
+		for _, f := range factList(p.Facts) {
+			f := f
+			if call, isC := f.V.(*ssa.Call); isC && !call.Call.IsInvoke() {
+				if fld, okF := elemField(call.Call.Value); okF {
+					if predField != "" && predField != fld {
+						return nil, false
+					}
+					predField, rowPred, args = fld, &f, call.Call.Args
+					continue
+				}
+				return nil, false // another condition decides as well
+			}
+			if bo, isB := f.V.(*ssa.BinOp); isB {
+				if _, isLen := stripConv(bo.Y).(*ssa.Call); isLen || bo.Op == token.LSS {
+					continue // the loop bound
+				}
+			}
+			return nil, false
+		}
+		last := p.Blocks[len(p.Blocks)-1]
+		if rowPred == nil {
+			return nil, false
+		}
+		if last == header {
+			if rowPred.Pol {
+				return nil, false
+			}
+			continue
+		}
+		ret := returnOf(last)
+		if ret == nil || len(ret.Results) != 1 || !rowPred.Pol {
+			return nil, false
+		}
+		fld, okF := elemField(p.Resolve(ret.Results[0]))
+		if !okF || (valField != "" && valField != fld) {
+			return nil, false
+		}
+		valField = fld
+	}
+	if predField == "" || valField == "" {
+		return nil, false
+	}
+	rowFn := func(i int) *ssa.Function {
+		switch x := stripConv(rows[i][predField]).(type) {
+		case *ssa.Function:
+			return x
+		case *ssa.MakeClosure:
+			if f, isF := x.Fn.(*ssa.Function); isF && len(x.Bindings) == 0 {
+				return f
+			}
+		}
+		return nil
+	}
+	var out []decisionOutcome
+	for i := range rows {
+		if rowFn(i) == nil || rows[i][valField] == nil {
+			return nil, false
+		}
+		o := decisionOutcome{result: rows[i][valField], pos: fn.Pos()}
+		for j := 0; j < i; j++ {
+			o.preds = append(o.preds, predFact{rowFn(j), args, false})
+		}
+		o.preds = append(o.preds, predFact{rowFn(i), args, true})
+		out = append(out, o)
+	}
+	// the default: the paths from the loop exit to a return
+	for _, s := range header.Succs {
+		if inLoop[s] {
+			continue
+		}
+		exits, okE := enumPaths(fn, k, s, isReturnBlock, nil, 200)
+		if !okE {
+			return nil, false
+		}
+		for _, p := range exits {
+			ret := returnOf(p.Blocks[len(p.Blocks)-1])
+			if ret == nil || len(ret.Results) != 1 {
+				return nil, false
+			}
+			o := decisionOutcome{result: p.Resolve(ret.Results[0]), pos: instrPos(ret)}
+			for i := range rows {
+				o.preds = append(o.preds, predFact{rowFn(i), args, false})
+			}
+			for _, f := range factList(p.Facts) {
+				if call, isC := f.V.(*ssa.Call); isC {
+					if g := staticCallee(&call.Call); g != nil {
+						o.preds = append(o.preds, predFact{g, call.Call.Args, f.Pol})
+					}
+				}
+			}
+			out = append(out, o)
+		}
+	}
+	return out, true
+}
+
+// pathOutcomes: the outcomes of an ordinary decision function, one per path: the predicates are
+// the static calls whose result the path branches on.
+func pathOutcomes(fn *ssa.Function) ([]decisionOutcome, bool) {
+	paths, _, ok := funcPaths(fn, 5000)
+	if !ok {
+		return nil, false
+	}
+	var out []decisionOutcome
+	for _, p := range paths {
+		ret := returnOf(p.Blocks[len(p.Blocks)-1])
+		if ret == nil || len(ret.Results) == 0 {
+			continue
+		}
+		o := decisionOutcome{result: p.Resolve(ret.Results[0]), pos: instrPos(ret)}
+		for _, f := range factList(p.Facts) {
+			if call, isC := f.V.(*ssa.Call); isC {
+				if g := staticCallee(&call.Call); g != nil {
+					o.preds = append(o.preds, predFact{g, call.Call.Args, f.Pol})
+				}
+			}
+		}
+		out = append(out, o)
+	}
+	return out, true
 }
